@@ -64,6 +64,16 @@
 //!     due at one instant) or mixed - "independent of how many requests are outstanding". Scripted schedules,
 //!     same oracle.
 //!
+//! Second hardening round:
+//!   * builder path: the exchange that is NOT under test is added with a different request timeout (3T + 70 ms);
+//!     a builder that hands one exchange's timeout to another one shows as a timeout at the wrong instant.
+//!   * request timeouts far outside the everyday range: T = 36 h (a clamp from above is invisible with T <= 1.5 s)
+//!     and T = 2 ms (a clamp from below), direct and through the builder.
+//!   * error classes: the client may also answer with a connectivity-class error (`OrderError::Connectivity(Socket)`,
+//!     not the timeout failure): it is the client's own answer like any other and must be forwarded as such.
+//!   * builder path with an exchange WITHOUT execution manager placed before the linked ones (cfg 4): the request
+//!     links are found by exchange index, so the position of every link in the built map matters.
+//!
 //! Determinism self-check: a fixed subset of the schedules is executed twice. Different (each time
 //! allowed) observations are a machinery failure (exit 2) when the run finds no violation at all;
 //! when it does, the subject itself is schedule-dependent beyond what the harness controls and the
@@ -172,6 +182,8 @@ pub enum Beh {
     Filled,
     /// open only: Ok with 0 < filled_quantity < quantity (half of it)
     Partial,
+    /// Err of the connectivity class (a socket error of the client's transport - not the timeout failure)
+    ErrConn,
 }
 
 /// Bounds of one exploration run (recorded in the case so that a replay rebuilds the same choice tree).
@@ -194,6 +206,9 @@ pub struct Params {
     /// time in force / no order id): only kind and client order id tell them apart (not for repeat plans)
     #[serde(default)]
     pub same_terms: bool,
+    /// the client may also answer with a connectivity-class error
+    #[serde(default)]
+    pub err_classes: bool,
 }
 
 /// which exchange the manager serves: 0 = first exchange of a real two-exchange `IndexedInstruments`
@@ -202,6 +217,8 @@ pub struct Params {
 /// foreign exchange index in an answer is observable. 2 / 3 = the builder path (see `build_subject`):
 /// `ExecutionBuilder::add_live` x 2 -> `ExecutionManager::init` -> `run` + `forward_to`, the manager under
 /// test serving BinanceSpot (exchange index 0, instruments 0, 1) / Kraken (exchange index 1, instruments 2, 3).
+/// 4 = like 3, but the instrument set starts with an exchange (BinanceFuturesUsd, sorts first) for which NO execution manager is added:
+/// the manager under test serves Kraken as exchange index 2 (instruments 3, 4; exchanges are indexed in `ExchangeId` order) behind an unlinked exchange.
 type Cfg = u8;
 
 /// `repeats == false`: cid labels in first-occurrence order (restricted growth), (kind, cid) pairwise
@@ -523,7 +540,12 @@ fn build_subject(
         let fut: SubjectFut = Box::pin(tokio::task::unconstrained(manager.run()));
         return (w, Link::Direct(req_tx), resp_rx, fut);
     }
-    let instruments = IndexedInstruments::builder()
+    let mut instruments = IndexedInstruments::builder();
+    if cfg == 4 {
+        // an exchange without execution link placed BEFORE the linked ones
+        instruments = instruments.add_instrument(spot(ExchangeId::BinanceFuturesUsd, "bf_btc_usdt", "BTCUSDT", "btc", "usdt"));
+    }
+    let instruments = instruments
         .add_instrument(spot(ExchangeId::BinanceSpot, "b_btc_usdt", "BTCUSDT", "btc", "usdt"))
         .add_instrument(spot(ExchangeId::BinanceSpot, "b_eth_usdt", "ETHUSDT", "eth", "usdt"))
         .add_instrument(spot(ExchangeId::Kraken, "k_btc_usdt", "XBT/USDT", "btc", "usdt"))
@@ -542,10 +564,13 @@ fn build_subject(
     // the exchange that is not under test gets its own (never inspected) client
     let other = ScriptClient::default();
     let (c0, c1) = if cfg == 2 { (client.clone(), other) } else { (other, client.clone()) };
+    // ... and its own, different request timeout: every exchange is added with the timeout meant for it
+    let other_timeout = timeout * 3 + Duration::from_millis(70);
+    let (t0, t1) = if cfg == 2 { (timeout, other_timeout) } else { (other_timeout, timeout) };
     let build = ExecutionBuilder::new(&instruments)
-        .add_live::<Live<0>>(c0, timeout)
+        .add_live::<Live<0>>(c0, t0)
         .unwrap_or_else(|e| panic!("ExecutionBuilder::add_live: {e:?}"))
-        .add_live::<Live<1>>(c1, timeout)
+        .add_live::<Live<1>>(c1, t1)
         .unwrap_or_else(|e| panic!("ExecutionBuilder::add_live: {e:?}"))
         .build();
     let ExecutionBuild { execution_tx_map, account_channel, futures: build_futures } = build;
@@ -664,11 +689,15 @@ struct Exec {
 }
 
 fn behaviours(kind: Kind, p: &Params) -> Vec<Beh> {
-    match kind {
+    let mut v = match kind {
         Kind::Open if p.filled && p.partial => vec![Beh::Ok, Beh::Err, Beh::Filled, Beh::Partial],
         Kind::Open if p.filled => vec![Beh::Ok, Beh::Err, Beh::Filled],
         _ => vec![Beh::Ok, Beh::Err],
+    };
+    if p.err_classes {
+        v.push(Beh::ErrConn);
     }
+    v
 }
 
 /// The real subject + everything the environment owns (request link, response channel, clock, client
@@ -1233,6 +1262,7 @@ fn complete(client: &ScriptClient, batch: &[Req], b: Beh, pos: usize) -> bool {
                 Beh::Filled => Ok(open_meta(pos, st.quantity)),
                 Beh::Partial => Ok(open_meta(pos, st.quantity / Decimal::TWO)),
                 Beh::Err => Err(client_error(pos)),
+                Beh::ErrConn => Err(client_error_conn(pos)),
             };
             // a late answer finds the receiver gone: that is fine
             let _ = tx.send(Order {
@@ -1248,6 +1278,7 @@ fn complete(client: &ScriptClient, batch: &[Req], b: Beh, pos: usize) -> bool {
         PendingTx::Cancel(tx) => {
             let state = match b {
                 Beh::Err => Err(client_error(pos)),
+                Beh::ErrConn => Err(client_error_conn(pos)),
                 _ => Ok(cancelled_meta(pos)),
             };
             let _ = tx.send(OrderEvent { key: call.key.clone(), state });
@@ -1269,9 +1300,14 @@ fn client_error(pos: usize) -> UnindexedOrderError {
 fn client_error_indexed(pos: usize) -> OrderError {
     OrderError::Rejected(ApiError::OrderRejected(format!("scripted rejection #{pos}")))
 }
+/// connectivity-class answer of the scripted client (the same value before and after indexing)
+fn client_error_conn<A, I>(pos: usize) -> OrderError<A, I> {
+    OrderError::Connectivity(ConnectivityError::Socket(format!("scripted socket error #{pos}")))
+}
 fn tag_of_error(e: &OrderError) -> Option<usize> {
     match e {
         OrderError::Rejected(ApiError::OrderRejected(text)) => text.strip_prefix("scripted rejection #")?.parse().ok(),
+        OrderError::Connectivity(ConnectivityError::Socket(text)) => text.strip_prefix("scripted socket error #")?.parse().ok(),
         _ => None,
     }
 }
@@ -1338,6 +1374,7 @@ fn judge_event(
                     // an order that is partly filled is still open: the client's answer says how much is filled
                     Some(Beh::Partial) => o.state == OrderState::active(open_meta(pos, st.quantity / Decimal::TWO)),
                     Some(Beh::Err) => o.state == OrderState::inactive(client_error_indexed(pos)),
+                    Some(Beh::ErrConn) => o.state == OrderState::inactive(client_error_conn::<AssetIndex, InstrumentIndex>(pos)),
                     None => false, // a response although the client never answered
                 };
                 if !ok {
@@ -1354,6 +1391,7 @@ fn judge_event(
             if class == Class::Response {
                 let ok = match beh {
                     Some(Beh::Err) => c.state == Err(client_error_indexed(pos)),
+                    Some(Beh::ErrConn) => c.state == Err(client_error_conn(pos)),
                     Some(_) => c.state == Ok(cancelled_meta(pos)),
                     None => false,
                 };
@@ -1487,6 +1525,7 @@ pub fn run(ctx: &Ctx) -> Outcome {
         filled,
         partial: false,
         same_terms: false,
+        err_classes: false,
     };
     // epsilon instants around the deadlines (199/200/201 and 299/300/301) for the thorough tier
     let eps = |filled: bool| Params {
@@ -1497,6 +1536,7 @@ pub fn run(ctx: &Ctx) -> Outcome {
         filled,
         partial: false,
         same_terms: false,
+        err_classes: false,
     };
     // repeat plans: T = 1 tick and hand-overs up to 2 ticks, so that a request can be re-issued after the
     // earlier instance was answered, while it is outstanding, exactly at its deadline (before or after
@@ -1509,14 +1549,18 @@ pub fn run(ctx: &Ctx) -> Outcome {
         filled,
         partial: false,
         same_terms: false,
+        err_classes: false,
     };
     // (label, n, repeated (kind, cid) batches?, cfgs, params, deviation bound)
     let mut plans: Vec<(&str, usize, bool, Vec<Cfg>, Params, Option<usize>)> = vec![
         // (cfg 2, 3: the same schedules through the builder path; `partial`: opens may also be answered partly filled)
-        ("n=1", 1, false, vec![0, 1, 2, 3], Params { partial: true, ..uniform(true, true) }, None),
-        ("n=2", 2, false, vec![0, 1, 2, 3], Params { partial: true, ..uniform(true, true) }, None),
+        ("n=1", 1, false, vec![0, 1, 2, 3, 4], Params { partial: true, err_classes: true, ..uniform(true, true) }, None),
+        ("n=2", 2, false, vec![0, 1, 2, 3, 4], Params { partial: true, err_classes: true, ..uniform(true, true) }, None),
+        // request timeouts far outside the everyday range: 36 h and 2 ms (instants T/2 apart), direct and through the builder
+        ("n=2/T=36h", 2, false, vec![0, 3], Params { timeout_ms: 129_600_000, instants: vec![0, 64_800_000, 129_600_000, 194_400_000, 259_200_000], deliver_until: 64_800_000, ..uniform(false, false) }, None),
+        ("n=2/T=2ms", 2, false, vec![1, 2], Params { timeout_ms: 2, instants: vec![0, 1, 2, 3, 4], deliver_until: 1, ..uniform(false, false) }, None),
         // a request timeout with whole seconds AND a sub-second part (T = 1.5 s, instants T/2 apart)
-        ("n=2/T=1.5s", 2, false, vec![1, 2], Params { timeout_ms: 1500, instants: vec![0, 750, 1500, 2250, 3000], deliver_until: 750, burst: true, filled: false, partial: false, same_terms: false }, None),
+        ("n=2/T=1.5s", 2, false, vec![1, 2], Params { timeout_ms: 1500, instants: vec![0, 750, 1500, 2250, 3000], deliver_until: 750, burst: true, filled: false, partial: false, same_terms: false, err_classes: false }, None),
         // identical terms: the requests differ in nothing but kind and client order id
         ("n=2/same-terms", 2, false, vec![0, 3], Params { same_terms: true, ..uniform(false, true) }, None),
         ("n=2/repeat", 2, true, vec![0, 1], uniform(true, true), None),
@@ -1532,7 +1576,7 @@ pub fn run(ctx: &Ctx) -> Outcome {
         plans.push(("n=3/eps", 3, false, vec![0], eps(false), Some(4)));
         plans.push(("n=4", 4, false, vec![0], uniform(false, false), Some(4)));
         // three hand-over instants, T = 3 ticks: requests whose deadlines are all different
-        let t3 = Params { timeout_ms: 300, instants: vec![0, 100, 200, 300, 400, 500, 600], deliver_until: 200, burst: false, filled: false, partial: false, same_terms: false };
+        let t3 = Params { timeout_ms: 300, instants: vec![0, 100, 200, 300, 400, 500, 600], deliver_until: 200, burst: false, filled: false, partial: false, same_terms: false, err_classes: false };
         plans.push(("n=3/T=3ticks", 3, false, vec![1], t3, None));
         plans.push(("n=3/repeat", 3, true, vec![0, 1], uniform(false, true), None));
         plans.push(("n=3/repeat/late", 3, true, vec![0, 1], late(false, true, 200), None));
@@ -1670,13 +1714,13 @@ pub fn run(ctx: &Ctx) -> Outcome {
                 "configs": load_cfgs, "kinds": LOAD_KINDS, "client_modes": LOAD_MODES, "hand_over": ["one by one", "all before the manager runs"],
                 "timeout_ms": LOAD_TIMEOUT_MS, "executions": load_execs, "answers_observed": load_answers.load(Ordering::Relaxed),
             },
-            "rule": "every environment schedule (hand-over instants, per-request client answer Ok/Err/filled before/at/after the deadline or never, all answer orders, manager run before/after an answer at the deadline instant, Shutdown/close) of every batch of n open/cancel requests with colliding cids (incl. the same (kind, cid) requested repeatedly), executed on the real ExecutionManager::run under virtual time - directly (ExecutionManager::new) and through the builder path (ExecutionBuilder::add_live x 2 exchanges -> ExecutionManager::init -> run + forward_to the merged account channel, requests routed through the MultiExchangeTxMap); plus a load layer with every number n <= bound of requests outstanding together under scripted client behaviour; per request exactly one answer of the class the statement prescribes, correctly attributed",
+            "rule": "every environment schedule (hand-over instants, per-request client answer Ok/Err (API rejection or connectivity-class error)/filled/partly filled before/at/after the deadline or never, all answer orders, manager run before/after an answer at the deadline instant, Shutdown/close) of every batch of n open/cancel requests with colliding cids (incl. the same (kind, cid) requested repeatedly), executed on the real ExecutionManager::run under virtual time - directly (ExecutionManager::new) and through the builder path (ExecutionBuilder::add_live x 2 exchanges -> ExecutionManager::init -> run + forward_to the merged account channel, requests routed through the MultiExchangeTxMap; the other exchange added with a different timeout; one configuration with an unlinked exchange placed first); request timeouts from 2 ms to 36 h; plus a load layer with every number n <= bound of requests outstanding together under scripted client behaviour; per request exactly one answer of the class the statement prescribes, correctly attributed",
             "samples": t.samples.lock().unwrap().values().cloned().collect::<Vec<_>>(),
         }),
         assumptions: vec![
             "an open and a cancel may share a cid; in the 'repeat' plans the same (kind, cid) is requested two or more times (after the earlier one was answered / timed out / while outstanding): every instance needs its own single answer, events without an instance tag (cancel timeouts) are matched per (kind, cid) as a multiset of answer classes; forwarding or not de-duplicating repeated requests is neither demanded nor forbidden".into(),
             "requests name instruments configured for the manager's exchange (the code panics otherwise by design)".into(),
-            "the client echoes the order key it was called with; its error answer is an API rejection (distinguishable from a timeout failure)".into(),
+            "the client echoes the order key it was called with; its error answers are an API rejection naming no asset / instrument, or a socket-class connectivity error (both distinguishable from a timeout failure, both translatable by the indexer)".into(),
             "the manager task is run whenever it has been woken and before anything later happens (no scheduler starvation, no spurious polls); only at the deadline instant itself the order is an environment choice".into(),
             "select!'s random start branch is not enumerated; the oracle ignores the order of events".into(),
             "virtual instants are whole milliseconds (tokio timer granularity)".into(),
